@@ -42,7 +42,8 @@ def templates(t, step):
         ("cherry-pick", br), ("cherry-pick", "--abort"), ("cherry-pick", "--continue"), ("cherry-pick", "-n", br),
         ("revert", "--no-edit", "HEAD"), ("mv", f, f + ".moved"), ("rm", "-q", "--cached", f), ("rm", "-q", "-f", f),
         ("-c", "color.ui=always", "log", "-1"), ("-c", "color.ui=always", "diff", "--stat"), ("-C", ".", "status", "-s"),
-        ("-C", "dir", "status", "-s"), ("--no-pager", "log", "-1", "--format=%H"), ("--git-dir", ".git", "--work-tree", ".", "status", "-s"),
+        ("-C", "dir", "status", "-s"), ("-C", "dir", "commit", "-q", "--allow-empty", "-m", m), ("-C", "dir/sub", "commit", "-q", "-a", "-m", m),
+        ("-C", "dir", "checkout", "-q", br), ("-C", "dir", "merge", "-q", "--no-edit", br), ("-C", "dir", "add", "-A"), ("-C", "dir/sub", "stash"), ("--no-pager", "log", "-1", "--format=%H"), ("--git-dir", ".git", "--work-tree", ".", "status", "-s"),
         ("--git-dir=.git", "log", "-1", "--oneline"), ("--exec-path",), ("--html-path",), ("--man-path",), ("--info-path",),
         ("--html-path", "status"), ("--", "status"), ("--version", "status", "-s"), ("-v", "log", "-1"), ("-p", "log", "-1"), ("--paginate", "log", "-1"), ("--literal-pathspecs", "add", f), ("--namespace=x", "log", "-1"),
         ("-c", "alias.zz=status -s", "zz"), ("--bare", "rev-parse", "--is-bare-repository"), ("--no-replace-objects", "log", "-1"),
@@ -98,8 +99,10 @@ NOCOMPARE_STDOUT = {"gc", "count-objects", "fsck"}
 def run_case(case):
     seed, index = case["seed"], case["index"]
     prng = random.Random("%s:C06p:%s" % (seed, index))
-    hooks_kind = prng.choice(["none", "dot-git", "dot-git", "hookspath"])
-    both = prng.random() < 0.2 and hooks_kind == "none"
+    hooks_kind = prng.choice(["none", "dot-git", "dot-git", "hookspath", "hookspath-rel"])
+    # git-ai's own repository hooks installed as well: without user hooks, or on top of a user core.hooksPath (absolute or relative),
+    # which git-ai then has to forward to
+    both = (prng.random() < 0.2 and hooks_kind == "none") or (prng.random() < 0.5 and hooks_kind in ("hookspath", "hookspath-rel"))
     off = set(case.get("flags_off", []))
     t = Twin("C06", seed, index, hooks_kind=hooks_kind, both_modes=both)
     used = []
